@@ -25,7 +25,8 @@
 (*   lenswitch  ch (seq of [key |-> n or -1 for the catch-all, t])         *)
 (*   enumswitch e (int tree), ch (seq of [key, t])                         *)
 (*   flagswitch f (int tree), ch (seq of [bit, name, t])                   *)
-(*   ctxswitch  up, field, ch (seq of [key, t]), dflt (seq of 0/1 trees)   *)
+(*   ctxswitch  up (>= 0 parents up, -1 = outermost frame), field,         *)
+(*              ch (seq of [key, t]), dflt (seq of 0/1 trees)              *)
 (*   bitfield   p, fs (seq of [n, bits]), shift                            *)
 (*   typedbytes m ("prefix"|"fixed"|"greedy"|"term"), p, n, terms, c,      *)
 (*              ein (empty is none), ctb (check trailing bytes)            *)
@@ -61,6 +62,18 @@
 (* D(t, bs, e, ctx) = [ok, v, r]  decoded value and unread rest.           *)
 (* ctx is the chain of enclosing container frames, innermost first; a      *)
 (* frame holds what has been read BEFORE the current element.              *)
+(* CONTEXT IS FIRST CLASS: exactly template (dataclass), tuple and         *)
+(* collection -- in EVERY length mode, prefixed, fixed and greedy -- push   *)
+(* one frame for their elements; every other kind (optionals, switches,    *)
+(* typed bytes, adapters, bitfields) hands its context down unchanged.     *)
+(* E and D build the chain by the same rule, so an element sees the same   *)
+(* chain (same depth, same frames) on write and on read; a context switch  *)
+(* nested under any container therefore resolves identically both ways.    *)
+(* THE READER MODE (rich / plain data) is likewise state that every kind   *)
+(* hands down unchanged: a canonical value has ONE rendering per mode and  *)
+(* Dec does not depend on the mode, so the law is stated per mode by the   *)
+(* binding: pod-read(write(v_pod)) = v_pod and rich-read(write(v)) = v,     *)
+(* where the comparison is mode-strict on every node (reflect.canon).      *)
 (***************************************************************************)
 EXTENDS Integers, Sequences, FiniteSets, TLC
 
@@ -143,6 +156,11 @@ FirstIn(bs, S, j) == IF j > Len(bs) THEN 0 ELSE IF bs[j] \in S THEN j ELSE First
 \* choice tables
 HasKey(ch, key) == \E j \in 1..Len(ch) : ch[j].key = key
 Pick(ch, key) == ch[CHOOSE j \in 1..Len(ch) : ch[j].key = key].t
+
+\* which frame a context switch reads: up >= 0 counts parents from the innermost frame (ctx.f, ctx._.f, ...),
+\* up = -1 is the outermost frame (ctx._root.f, defined only below at least one parent); 0 = no such frame
+FrameIdx(t, ctx) == IF t.up < 0 THEN (IF Len(ctx) >= 2 THEN Len(ctx) ELSE 0)
+                    ELSE IF Len(ctx) >= t.up + 1 THEN t.up + 1 ELSE 0
 
 \* ---------------------------------------------------------- self-delimiting
 \* TRUE only where the encoding of every domain value can be followed by arbitrary bytes.
@@ -316,8 +334,8 @@ E(t, v, e, ctx) ==
                       IN IF Worst(fl.st, r.st) # "ok" THEN [st |-> Worst(fl.st, r.st), b |-> <<>>]
                          ELSE IF SeqOK(ts, r.ps) THEN Ok(fl.b \o Flat(r.ps)) ELSE Bad
     [] t.k = "ctxswitch" ->
-         IF Len(ctx) < t.up + 1 THEN Bad
-         ELSE LET fr == ctx[t.up + 1] IN
+         IF FrameIdx(t, ctx) = 0 THEN Bad
+         ELSE LET fr == ctx[FrameIdx(t, ctx)] IN
               IF ~IsDict(fr) THEN Bad ELSE IF ~Has(fr.d, t.field) THEN Bad
               ELSE LET sel == Get(fr.d, t.field) IN
                    IF ~Is(sel, "i") THEN Bad
@@ -445,8 +463,8 @@ D(t, bs, e, ctx) ==
          IF ~g.ok THEN Fail ELSE IF NatOf(g.v) < 0 THEN Fail
          ELSE DFlags(t.ch, g.v.i, g.r, e, ctx, <<>>)
     [] t.k = "ctxswitch" ->
-         IF Len(ctx) < t.up + 1 THEN Fail
-         ELSE LET fr == ctx[t.up + 1] IN
+         IF FrameIdx(t, ctx) = 0 THEN Fail
+         ELSE LET fr == ctx[FrameIdx(t, ctx)] IN
               IF ~IsDict(fr) THEN Fail ELSE IF ~Has(fr.d, t.field) THEN Fail
               ELSE LET sel == Get(fr.d, t.field) IN
                    IF ~Is(sel, "i") THEN Fail
